@@ -256,6 +256,7 @@ class Driver:
                 self.real = sp.PlainNameImportURI()
 
             def load_models(self, model, encoding="utf-8"):
+                drv._flush_new()      # the file is constructed: name its user objects while they have their names
                 return self.real.load_models(model, encoding=encoding)
 
             def __call__(self, obj, attr, ref):
@@ -356,6 +357,7 @@ class Driver:
             raise Boom("objproc")
 
     def on_matchproc(self, value):
+        self._flush_new()
         if value == BOOM:
             raise Boom("matchproc")
         return value
